@@ -10,6 +10,9 @@ use super::*;
 /// Extra cost of apply nodes and subquery expressions, which have no executor at all.
 const NO_EXECUTOR: f32 = 1e18;
 
+/// Extra cost of a hash aggregation where its e-class is taken to be ordered.
+const NOT_ORDERED: f32 = 1e9;
+
 /// The main cost function.
 pub struct CostFn<'a> {
     pub egraph: &'a EGraph,
@@ -47,7 +50,20 @@ impl egg::CostFunction<Expr> for CostFn<'_> {
             }
             Agg([exprs, c]) => costs(exprs) * rows(c) + build() + costs(c),
             HashAgg([keys, aggs, c]) => {
-                (hash(rows(id)) + costs(keys) + costs(aggs)) * rows(c) + build() + costs(c)
+                // On input ordered by the group keys there is a sort aggregation in the same
+                // e-class, and the order analysis calls that class ordered by the keys (ORDER BY
+                // on them is dropped). Only the sort aggregation delivers that order: the hash
+                // aggregation must not be extracted there, not even on equal (zero) estimates.
+                let keys_order = &self.egraph[*keys].data.orderby;
+                let unordered = if self.egraph[*c].data.orderby.starts_with(keys_order) {
+                    NOT_ORDERED
+                } else {
+                    0.0
+                };
+                unordered
+                    + (hash(rows(id)) + costs(keys) + costs(aggs)) * rows(c)
+                    + build()
+                    + costs(c)
             }
             SortAgg([keys, aggs, c]) => (costs(keys) + costs(aggs)) * rows(c) + build() + costs(c),
             Limit([_, _, c]) => build() + costs(c),
